@@ -40,6 +40,16 @@ static int current_num_values;
 static size_t last_size_generated;
 static int line_being_generated;
 
+/* The code of global variable initialisers is collected in A_INITIALIZER and moved to the end of
+ * the program by i_generate___INIT(). Its line numbers can only be generated then, so while it is
+ * being generated we just note where each source line starts (A_INIT_LINES).
+ */
+typedef struct init_line_s {
+  int line;
+  int offset;
+} init_line_t;
+static int init_line_being_generated;
+
 #ifdef NEOLITH_VERIF
 /* verification trace point: reports every line-number bookkeeping event of the compiler
  * kind: 'b' parser initialised, 's' switch_to_line (a=line, b=code address, c=current block),
@@ -362,7 +372,18 @@ static void switch_to_line (int line) {
   if (verif_line_hook)
     verif_line_hook ('s', (long) line, (long) CURRENT_PROGRAM_SIZE, (long) current_block, 0);
 #endif
-  /* should be fixed later */
+  if (current_block == A_INITIALIZER)
+    {
+      if (line != init_line_being_generated)
+        {
+          init_line_t il;
+          il.line = line;
+          il.offset = (int) CURRENT_PROGRAM_SIZE;
+          add_to_mem_block (A_INIT_LINES, (char *) &il, sizeof (il));
+          init_line_being_generated = line;
+        }
+      return;
+    }
   if (current_block != A_PROGRAM)
     return;
 
@@ -456,7 +477,7 @@ void i_generate_node (parse_node_t * expr) {
   if (!expr)
     return;
 
-  if (expr->line && expr->line != line_being_generated)
+  if (expr->line && expr->line != (current_block == A_INITIALIZER ? init_line_being_generated : line_being_generated))
     switch_to_line (expr->line);
   switch (expr->kind)
     {
@@ -1004,6 +1025,8 @@ i_generate_if_branch (parse_node_t * node, int invert)
 void
 i_generate_inherited_init_call (int index, int f)
 {
+  /* an error in the inherited initialiser is traced back to the line of the inherit statement */
+  switch_to_line ((short)(current_line_base + current_line));
   end_pushes ();
   ins_byte (F_CALL_INHERITED);
   ins_byte ((BYTE)index);
@@ -1015,12 +1038,23 @@ i_generate_inherited_init_call (int index, int f)
 void
 i_generate___INIT ()
 {
+  size_t base = mem_block[A_PROGRAM].current_size;
+  size_t i, n = mem_block[A_INIT_LINES].current_size / sizeof (init_line_t);
+
 #ifdef NEOLITH_VERIF
   if (verif_line_hook)
     verif_line_hook ('i', (long) mem_block[A_PROGRAM].current_size, (long) mem_block[A_INITIALIZER].current_size, 0, 0);
 #endif
   add_to_mem_block (A_PROGRAM, (char *) mem_block[A_INITIALIZER].block,
                     mem_block[A_INITIALIZER].current_size);
+  /* generate the line numbers of the moved code: visit the start of every noted line like the
+   * code generator would have done had the code been generated here */
+  for (i = 0; i < n; i++)
+    {
+      init_line_t *il = ((init_line_t *) mem_block[A_INIT_LINES].block) + i;
+      prog_code = mem_block[A_PROGRAM].block + base + il->offset;
+      switch_to_line (il->line);
+    }
   prog_code = mem_block[A_PROGRAM].block + mem_block[A_PROGRAM].current_size;
 }
 
@@ -1130,6 +1164,7 @@ i_initialize_parser ()
 
   line_being_generated = 0;
   last_size_generated = 0;
+  init_line_being_generated = 0;
 #ifdef NEOLITH_VERIF
   if (verif_line_hook)
     verif_line_hook ('b', 0, 0, 0, 0);
